@@ -283,7 +283,16 @@ Fixpoint seval (e : expr) (cst : bool) : SM (pyval * list top) :=
   | EImag | EDuration | EOther _ => schecked
   end.
 
-Definition seval0 (e : expr) (cst : bool) : SM pyval := '(v, _) <~ seval e cst;; sret v.
+(* the value of an expression where the implementation keeps the value only: if evaluating it executed quantum operations
+   (a subroutine call that acts on qubits inside a gate parameter, an index, a loop bound, a condition, a modifier ...)
+   the implementation DROPS those operations (known finding C01-operations-of-a-call-inside-an-expression-are-dropped);
+   the specification does not endorse that: it is silent on such programs *)
+Definition seval0 (e : expr) (cst : bool) : SM pyval :=
+  '(v, tr) <~ seval e cst;;
+  match tr with
+  | [] => sret v
+  | _ => sunspec "known:operations executed by a call inside an expression whose statements are dropped"
+  end.
 
 Definition eval_int (e : expr) (cst : bool) : SM Z :=
   v <~ seval0 e cst;;
